@@ -43,6 +43,11 @@ def run(ck):
     for h in hists + deep:
         for mgr in ("contents", "sums"):
             stim.append({"ops": h, "mgr": mgr, "ns": 3})
+    # a sample of the histories once more with every item value scaled by 2^-40 (sums that differ by less than 1e-9)
+    tiny = [dict(x, tiny=1) for x in stim if x["ops"] and len(x["ops"]) >= 4]
+    ck.rng.shuffle(tiny)
+    stim += tiny[:4000 if q else 40000]
+    ck.cat("tiny_value_histories", len(tiny[:4000 if q else 40000]))
     traces = core.pmap(drive.run_binner_hist, stim)
     for t in traces:
         ck.evaluations += len(t["ops"])
